@@ -12,14 +12,14 @@ From Cassis.Props Require C02.
 Open Scope Z_scope.
 
 Theorem C16_xmi_json_xmi_partial : forall L s mode c1 j c1',
-  lex_ok L -> save_json L s mode c1 = Ok (j, c1') -> wf_jsonb s c1' = true -> stableb L s c1 = true ->
+  lex_ok L -> save_json L s mode c1 = Ok (j, c1') -> wf_jsonb s c1' = true -> 0 < c_next_id c1 ->
   load_json L s j = denote_json L s j -> inline_outline_at s c1' ->
   (do x <- load_json L s j ;; inline_of s x) = Xmi.canon_xmi s c1'.
 Proof. exact xmi_json_xmi. Qed.
 Print Assumptions C16_xmi_json_xmi_partial.
 
 Theorem C16_json_leg_preserves_partial : forall L s mode c1 j c1',
-  lex_ok L -> save_json L s mode c1 = Ok (j, c1') -> wf_jsonb s c1' = true -> stableb L s c1 = true ->
+  lex_ok L -> save_json L s mode c1 = Ok (j, c1') -> wf_jsonb s c1' = true -> 0 < c_next_id c1 ->
   load_json L s j = denote_json L s j -> load_json L s j = canon_json s c1'.
 Proof. exact json_leg_preserves. Qed.
 Print Assumptions C16_json_leg_preserves_partial.
@@ -39,7 +39,7 @@ Theorem C16_conversion_documents_agree : forall L s mode (fmt_flt : flt -> strin
   lex_ok L -> (forall f, parse_flt (fmt_flt f) = Some f) -> (forall f, Lex.tok_ok (fmt_flt f)) ->
   Xmi.save_xmi fmt_flt s c = Ok (x, c') ->
   (forall all, Xmi.written s c = Ok (c', all) -> Xmi.wf_xmib s c' all = true) ->
-  save_json L s mode c = Ok (j, c'') -> wf_jsonb s c'' = true -> stableb L s c = true ->
+  save_json L s mode c = Ok (j, c'') -> wf_jsonb s c'' = true -> 0 < c_next_id c ->
   inline_outline_at s c'' -> Xmi.canon_xmi s c'' = Xmi.canon_xmi s c ->
   XmiDoc.denote_xmi parse_flt s x = (do jv <- denote_json L s j ;; do v <- inline_of s jv ;; Ok (XmiDoc.norm_xmi s v)).
 Proof. exact conversion_documents_agree. Qed.
@@ -52,7 +52,7 @@ Example C16_premises_hold :
   let s := full_schema (c_user C02.ex_case) in
   match save_json std_lex s MFull (c_cas C02.ex_case) with
   | Ok (j, c') =>
-      wf_jsonb s c' = true /\ stableb std_lex s (c_cas C02.ex_case) = true /\
+      wf_jsonb s c' = true /\ 0 < c_next_id (c_cas C02.ex_case) /\
       load_json std_lex s j = denote_json std_lex s j /\ inline_outline_at s c' /\
       match Xmi.canon_xmi s c' with Ok x => (2 <= List.length (cc_fs x))%nat | _ => False end
   | _ => False
